@@ -64,3 +64,16 @@ func (c *Client) VerifSetWriteDelay(d time.Duration) bool {
 	c.conn.mu.Unlock()
 	return true
 }
+
+// VerifLimiterState returns the three fields of the live connection that the flood limiter
+// reads and writes, as they are (absolute times); ok is false when not connected.
+func (c *Client) VerifLimiterState() (writeDelay time.Duration, lastWrite, lastRate time.Time, ok bool) {
+	c.mu.RLock()
+	defer c.mu.RUnlock()
+	if c.conn == nil {
+		return 0, time.Time{}, time.Time{}, false
+	}
+	c.conn.mu.RLock()
+	defer c.conn.mu.RUnlock()
+	return c.conn.writeDelay, c.conn.lastWrite, c.conn.lastRate, true
+}
